@@ -351,4 +351,93 @@ func checkMapEntryArm(r *core.Result, info *types.Info, mc *msgCode, ex *e3.Expa
 	apos := mc.pos(ex, a.clause.Pos())
 	r.GroupOb("U-map-length", "Unmarshal arm of a map field", name, apos, !discarded, "the declared length of the map entry is read and discarded: nothing bounds the entry, so an entry that omits its key or value (legal: the zero value is implied) swallows the following field or fails with unexpected EOF")
 	r.GroupOb("U-map-loop", "Unmarshal arm of a map field", name, apos, !fixedLoop, "the entry is parsed by a loop with a constant trip count: entries with fewer or more than two fields are mis-parsed")
+	// U-map-cases / U-map-store: inside the entry, field 1 is the key and field 2 the value; each decoded part is stored
+	// into the variable that the final `m.F[key] = value` reads; a missing message value is replaced by an empty message
+	// only when it really is missing.
+	var inner *ast.SwitchStmt
+	var mapStore *ast.AssignStmt
+	for _, s := range a.clause.Body {
+		ast.Inspect(s, func(n ast.Node) bool {
+			switch x := n.(type) {
+			case *ast.SwitchStmt:
+				if x.Tag != nil && inner == nil {
+					if t := info.TypeOf(x.Tag); t != nil && t.String() == "int" {
+						inner = x
+					}
+				}
+			case *ast.AssignStmt:
+				if len(x.Lhs) == 1 {
+					if ix, ok := x.Lhs[0].(*ast.IndexExpr); ok {
+						if _, isMap := info.TypeOf(ix.X).Underlying().(*types.Map); isMap {
+							mapStore = x
+						}
+					}
+				}
+			}
+			return true
+		})
+	}
+	if inner == nil || mapStore == nil {
+		r.GroupOb("U-map-cases", "Unmarshal arm of a map field", name, apos, false, "no switch over the entry's field number / no store into the map found")
+		return
+	}
+	keyObj, valObj := types.Object(nil), types.Object(nil)
+	if id, ok := mapStore.Lhs[0].(*ast.IndexExpr).Index.(*ast.Ident); ok {
+		keyObj = info.Uses[id]
+	}
+	if id, ok := mapStore.Rhs[0].(*ast.Ident); ok {
+		valObj = info.Uses[id]
+	}
+	assigns := func(body []ast.Stmt, obj types.Object) bool {
+		found := false
+		for _, st := range body {
+			ast.Inspect(st, func(n ast.Node) bool {
+				if as, ok := n.(*ast.AssignStmt); ok {
+					for _, l := range as.Lhs {
+						if id, ok := l.(*ast.Ident); ok && obj != nil && info.Uses[id] == obj {
+							found = true
+						}
+					}
+				}
+				return true
+			})
+		}
+		return found
+	}
+	cases := map[string]*ast.CaseClause{}
+	for _, cl := range inner.Body.List {
+		cc := cl.(*ast.CaseClause)
+		for _, e := range cc.List {
+			if tv := info.Types[e]; tv.Value != nil {
+				cases[tv.Value.ExactString()] = cc
+			}
+		}
+	}
+	okCases := len(cases) == 2 && cases["1"] != nil && cases["2"] != nil
+	r.GroupOb("U-map-cases", "Unmarshal arm of a map field", name, apos, okCases, fmt.Sprintf("the entry switch has arms for field numbers %v; a map entry has key = 1 and value = 2", sortedKeys(cases)))
+	if okCases {
+		r.GroupOb("U-map-store", "Unmarshal arm of a map field", name, apos, keyObj != nil && valObj != nil && assigns(cases["1"].Body, keyObj) && assigns(cases["2"].Body, valObj),
+			"the decoded key (field 1) / value (field 2) is not stored into the variable that `m.F[key] = value` reads: the entry is inserted with a default key or value")
+	}
+	// defaulting of a missing message value
+	okDefault := true
+	for _, s := range a.clause.Body {
+		ast.Inspect(s, func(n ast.Node) bool {
+			is, ok := n.(*ast.IfStmt)
+			if !ok {
+				return true
+			}
+			b, ok := is.Cond.(*ast.BinaryExpr)
+			if !ok || !isNilIdentExpr(b.Y) {
+				return true
+			}
+			if id, ok := b.X.(*ast.Ident); ok && valObj != nil && info.Uses[id] == valObj && assigns(is.Body.List, valObj) {
+				if b.Op != token.EQL {
+					okDefault = false
+				}
+			}
+			return true
+		})
+	}
+	r.GroupOb("U-map-default", "Unmarshal arm of a map field", name, apos, okDefault, "the value is replaced by an empty message on a condition other than `value == nil`: a decoded value is thrown away (and a missing one stays nil)")
 }
